@@ -227,6 +227,7 @@ class Extraction:
     final_env: dict
     self_alias: dict
     vardefs: dict = field(default_factory=dict)
+    loopdefs: dict = field(default_factory=dict)  # (name, loopid) -> (initial value, value at the end of the body)
 
     def vardef(self, t: Term) -> Optional[Term]:
         if t[0] == "v":
@@ -296,6 +297,7 @@ class Extractor:
         self.cur_site_node: Optional[ast.AST] = None
         self.bind_depth: dict = {}
         self.vardefs: dict[int, Term] = {}
+        self.loopdefs: dict = {}
         self.enter_closures: set = set()
 
     # -- utilities -------------------------------------------------------
@@ -377,6 +379,7 @@ class Extractor:
             dict(self.scopes[0]),
             dict(self.self_alias),
             dict(self.vardefs),
+            dict(self.loopdefs),
         )
 
     def _bind_params(self, node, bindings: dict[str, Term], fname: str):
@@ -536,6 +539,11 @@ class Extractor:
                 self.module_vars.add(t.id)
                 self.bind(t.id, ("n", t.id))
         elif isinstance(t, (ast.Tuple, ast.List)):
+            if val[0] == "call" and ((val[1][0] == "a" and val[1][2] in ("pop", "popleft", "popitem")) or val[1] == ("n", "next")):
+                # a state-changing call: two textually equal calls return different values -> one identity per call
+                vid = self.fresh()
+                self.vardefs[vid] = val
+                val = ("v", "_".join(e.id for e in t.elts if isinstance(e, ast.Name)) or "unpacked", vid)
             for k, e in enumerate(t.elts):
                 if isinstance(e, ast.Starred):
                     self.assign_target(e.value, ("i", val, ("slice", C(k), C(None), C(None))), s)
@@ -780,6 +788,7 @@ class Extractor:
         # loop-carried variables: a name that is bound before the loop and re-assigned inside it holds, at the top of
         # an iteration, either its initial value or the value of an earlier iteration -> opaque inside and after
         carried = [n for n in _assigned_names(s.body) if self.lookup(n) is not None and n not in self.module_vars]
+        inits = {n: self.lookup(n) for n in carried}
         for n in carried:
             self.rebind(n, ("loopvar", n, loopid))
         binders = self._bind_loop_target(s.target, it, loopid)
@@ -792,6 +801,9 @@ class Extractor:
         finally:
             self.frames.pop()
         for n in carried:
+            # the recurrence of the carried name: x0 = initial value, x' = value at the end of one iteration (exact only
+            # when the body assigns it unconditionally; rules that use it check that themselves)
+            self.loopdefs[(n, loopid)] = (inits[n], self.lookup(n))
             self.rebind(n, ("loopvar", n, loopid))
         if s.orelse:
             self.walk_body(s.orelse)
